@@ -790,6 +790,10 @@ func pureTerm(t *Term) bool {
 			}
 		}
 		return true
+	case "call":
+		if strings.HasPrefix(t.Name, "assert<") && len(t.Args) == 1 {
+			return pureTerm(t.Args[0])
+		}
 	}
 	return false
 }
